@@ -37,11 +37,11 @@ def tla_world(w):
     return " @@ ".join("(%d :> %s)" % (a, acc(r)) for a, r in w.items())
 
 
-def consts(fork, contracts, kinds, maxsnips, maxtx, txgas, targets, prices=(10,), maxcreates=3, tokens=None, steps=400, variety=True, plan=None, coinbases=(COINBASE,), rejections=False):
+def consts(fork, contracts, kinds, maxsnips, maxtx, txgas, targets, prices=(10,), maxcreates=3, tokens=None, steps=400, variety=True, plan=None, coinbases=(COINBASE,), rejections=False, precreated="<<>>", values=(0,)):
     fi = FORKS.index(fork)
     q = lambda xs: "{" + ", ".join('"%s"' % x for x in xs) + "}"
     return dict(Fork=fi, Contracts=vf.tla_set(contracts), World0=tla_world(world0(contracts, tokens)), Sender=SENDER,
-                Coinbase=COINBASE, Coinbases=vf.tla_set(coinbases), Rejections="TRUE" if rejections else "FALSE", MaxSnips=maxsnips, MaxTx=maxtx, MaxCreates=maxcreates, SnipKinds=q(kinds),
+                Coinbase=COINBASE, Coinbases=vf.tla_set(coinbases), Rejections="TRUE" if rejections else "FALSE", PreCreated=precreated, TxValues=vf.tla_set(values), MaxSnips=maxsnips, MaxTx=maxtx, MaxCreates=maxcreates, SnipKinds=q(kinds),
                 TxGas=vf.tla_set(txgas), TxTargets=vf.tla_set(targets), BaseFee=7 if fi >= 12 else 0,
                 GasPrices=vf.tla_set(prices), StepBound=steps, TxVariety="TRUE" if variety else "FALSE",
                 SetupPlan="<<" + ", ".join("[c |-> %d, kinds |-> %s]" % (c, q(ks)) for c, ks in (plan or [])) + ">>")
@@ -59,7 +59,7 @@ def generate(ctx, name, cs, simulate=0, depth=600, workers=6, timeout=900):
                   stream=("REPLAY",), xss="64m")
 
 
-def replay(ctx, res, run, name, binary, db="state", insp="rec", reuse=1, facets=None, sdev=0):
+def replay(ctx, res, run, name, binary, db="state", insp="rec", reuse=1, facets=None, sdev=0, klass="evm"):
     """Execute the generated scenarios on revm and convert mismatches into violations.
     facets: None = every difference counts; else a list of path fragments a diff must contain."""
     f = run.files.get("REPLAY")
@@ -80,7 +80,7 @@ def replay(ctx, res, run, name, binary, db="state", insp="rec", reuse=1, facets=
         if facets is not None and not any(any(fr in d for fr in facets) for d in diff):
             continue
         sc = m["scenario"]
-        key = "evm|%s|%s|%s" % (db, insp if insp != "rec" else "-", m["sig"])
+        key = "%s|%s|%s|%s" % (klass, db, insp if insp != "rec" else "-", m["sig"])
         what = ("%s: scenario #%d (fork %s, %d tx) differs at %s: expected %s, revm gave %s" % (
             name, m["idx"], FORKS[sc["fork"]], len(sc["txs"]), diff[:6],
             json.dumps(_at(m["exp"], diff[0]))[:300], json.dumps(_at(m["got"], diff[0]))[:300]))
@@ -255,6 +255,15 @@ def run(ctx, pid):
                 r = planned("c21_%s_%s" % (f, pn), f, [193], [(193, ["createS"])], targets=[193, 0], tokens={1000000001: pre})
                 for db in ("state", "cachedb", "cachedb_ins", "state_nobundle"):
                     replay(ctx, res, r, "c21_%s_%s" % (f, pn), binary, db=db)
+            # the target is first touched / funded by a committed transaction, then created onto
+            # (the address token of 193's next CREATE exists from the start)
+            # (from Spurious Dragon a touched EMPTY account is deleted with its storage, which the fork-agnostic
+            # CacheDB does not do: there the target is funded with 1 wei; before Spurious Dragon both values)
+            for ff, vals in ((f, (1,)), ("TANGERINE", (0, 1))):
+                r = planned("c21touch_%s" % ff, ff, [193], [(193, ["createS"])], targets=[193, 1000000001], maxtx=2, values=vals,
+                            tokens={1000000001: pres["storage"]}, precreated='<< <<"create", 193, 1>> >>')
+                for db in ("state", "cachedb", "cachedb_ins", "state_nobundle"):
+                    replay(ctx, res, r, "c21touch_%s" % ff, binary, db=db, klass="evm.c21touch")
     elif pid == "C28":
         for f in rot(["CANCUN", "LONDON", "BYZANTIUM", "PRAGUE", "FRONTIER"], 2 if q else 5):
             r = sim("c28_" + f, f, ALL)
@@ -269,7 +278,7 @@ def run(ctx, pid):
             replay(ctx, res, r, "c31_" + f, binary, reuse=1, insp="none")
         # leak probes: transaction 1 writes transient storage / warms / logs, transaction 2 reads
         for f in rot(["CANCUN", "PRAGUE", "BERLIN"], 1 if q else 3):
-            r = planned("c31leak_" + f, f, [193, 194], [(193, ["tstore", "probe", "log"]), (194, ["tstore", "probe"])],
+            r = planned("c31leak_" + f, f, [193, 194], [(193, ["probe", "tstore"]), (194, ["tstore"])],
                         maxtx=2, targets=[193, 194], coinbases=(COINBASE, COINBASE2), rejections=True)
             replay(ctx, res, r, "c31leak_" + f, binary, reuse=1)
             replay(ctx, res, r, "c31leak_" + f, binary, reuse=0)
